@@ -80,7 +80,7 @@ impl PkgDB {
         if p.is_dir() {
             db.dbtype = DBType::Files;
             db.path = PathBuf::from(p);
-            db.readdir = Some(fs::read_dir(&db.path).expect("fail"));
+            db.readdir = Some(fs::read_dir(&db.path)?);
         } else if p.is_file() {
             db.dbtype = DBType::Database;
             db.path = PathBuf::from(p);
